@@ -199,6 +199,9 @@ func (fc *FuncCtx) checkPost(st *State, vals []Term, n ast.Node) {
 		if fc.contract.Opts["trustpost"] != "" {
 			break // postconditions are assumed, not proved (listed as an assumption in the evidence)
 		}
+		if strings.HasPrefix(e.Tag, "trusted") {
+			continue // an assumed clause: exported to callers, not proved here, listed in the evidence
+		}
 		t := fc.cevalIn(env, e, n)
 		site := "ens" + strconv.Itoa(i+1)
 		if e.Tag != "" {
